@@ -92,9 +92,10 @@ public:
         T const rel_err_all = err_all / fabs(val_all);
 
         // without a (positive) target precision never stop early; a relative error that is zero or
-        // NaN (constant, vanishing or non-finite integrand) must not end the run
+        // NaN (constant, vanishing or non-finite integrand) must not end the run. With a target, a
+        // NaN (no information yet, "0 +- 0") does not count as having reached it
         bool const perform_more_iterations = !(target_rel_err_ > T()) ||
-            (rel_err_all > target_rel_err_);
+            !(rel_err_all <= target_rel_err_);
 
         if ((mode_ == callback_mode::verbose) || (mode_ == callback_mode::verbose_and_write_chkpt))
         {
